@@ -55,15 +55,17 @@ CHECKS = {
             {"pkg": "lib", "entries": ["VerifC18Patch"], "params": {"N": 2, "KEYS": 3}},
             {"pkg": "lib", "entries": ["VerifC18Merge"], "params": {"D": 0, "EMPTYOBJ": 1}},
             {"pkg": "lib", "entries": ["VerifC18Patch"], "params": {"N": 2, "LONG": 1}},
+            {"pkg": "lib", "entries": ["VerifC18Patch"], "params": {"N": 2, "KEYS": 3, "KEYSET": 1, "FAMS": 2}},
         ],
         "thorough": [
             {"pkg": "lib", "entries": ["VerifC18Patch"], "params": {"N": 3, "KEYS": 6}},
             {"pkg": "lib", "entries": ["VerifC18Merge"], "params": {"D": 1, "EMPTYOBJ": 1, "ROOTS": 1}},
             {"pkg": "lib", "entries": ["VerifC18Merge"], "params": {"D": 0, "EMPTYOBJ": 1, "INNER": 2}},
             {"pkg": "lib", "entries": ["VerifC18Patch"], "params": {"N": 3, "LONG": 1}},
+            {"pkg": "lib", "entries": ["VerifC18Patch"], "params": {"N": 2, "KEYS": 4, "KEYSET": 1, "FAMS": 2}},
         ],
         "covers": ["c18.patch", "c18.merge"],
-        "outside": "keys beyond {0, 10, a/b, m~n, k, a, b, c}; arrays longer than N symbolic elements (plus a fixed common prefix of 7..10 elements in the LONG family); text-level encoding (codec axioms)",
+        "outside": "keys beyond {0, 10, a/b, m~n, k, a, b, c, 007, +1, -0, 00}; arrays longer than N symbolic elements (plus a fixed common prefix of 7..10 elements in the LONG family); text-level encoding (codec axioms)",
     },
     "C10": {
         "quick": [
@@ -73,6 +75,7 @@ CHECKS = {
             {"pkg": "v2", "entries": ["VerifC10Ops"], "params": {"OPS": 3, "N": 2, "MAXIDX": 3}},
             {"pkg": "v2", "entries": ["VerifC10Ops"], "params": {"OPS": 2, "N": 2, "MAXIDX": 3, "SPELL": 1}},
             {"pkg": "v2", "entries": ["VerifC10ObjOps"], "params": {"OPS": 2}},
+            {"pkg": "v2", "entries": ["VerifC10ObjOps"], "params": {"OPS": 2, "ARR": 1, "PATHS": 12}},
             {"pkg": "v2", "entries": ["VerifC09Long"], "params": {"N": 2}},
         ],
         "thorough": [
@@ -84,7 +87,7 @@ CHECKS = {
             {"pkg": "v2", "entries": ["VerifC10ObjOps"], "params": {"OPS": 3}},
         ],
         "covers": ["c10.own", "c10.ops.applied", "c10.ops.rejected", "c10.objops.applied", "c10.objops.notapplied", "c09.long"],
-        "outside": "more than OPS operations; indices above MAXIDX; index spellings other than canonical, 0-prefixed, signed; object-member operations beyond the paths /k, /m/k, /a~1b, /q/k, /m and the root (own-output leg covers keys a/b, m~n, empty, e-acute); replace/move/copy (outside jd's subset: rejected by the reader); operations lacking the value member (malformed per RFC 6902 section 4, not a JSON Patch document: jd reads a missing value as null)",
+        "outside": "more than OPS operations; indices above MAXIDX; index spellings other than canonical, 0-prefixed, signed; object-member operations beyond the paths /k, /m/k, /a~1b, /q/k, /m, /r/-, /r/-/k, /r/1/k, /r/-/0, /r/2/k, /m/- and the root (own-output leg covers keys a/b, m~n, empty, e-acute); replace/move/copy (outside jd's subset: rejected by the reader); operations lacking the value member (malformed per RFC 6902 section 4, not a JSON Patch document: jd reads a missing value as null)",
     },
     "C09": {
         "quick": [
@@ -271,6 +274,7 @@ CHECKS = {
             {"pkg": "v2", "entries": ["VerifC05Nest"], "params": {"N": 2, "INNER": 1}},
             {"pkg": "v2", "entries": ["VerifC05Docs"], "params": {"OPTS": 19}},
             {"pkg": "v2", "entries": ["VerifC05Nulls"], "params": {"N": 2}},
+            {"pkg": "v2", "entries": ["VerifC05Keys2"], "params": {"N": 1}},
             {"pkg": "v2", "entries": ["VerifC05Precision"], "params": {"N": 1}, "extra": ["-solver", "cvc5"]},
         ],
         "thorough": [
@@ -278,9 +282,10 @@ CHECKS = {
             {"pkg": "v2", "entries": ["VerifC05Nest"], "params": {"N": 2, "INNER": 2}},
             {"pkg": "v2", "entries": ["VerifC05Docs"], "params": {"OPTS": 0x77}},
             {"pkg": "v2", "entries": ["VerifC05Nulls"], "params": {"N": 3}},
+            {"pkg": "v2", "entries": ["VerifC05Keys2"], "params": {"N": 1}},
             {"pkg": "v2", "entries": ["VerifC05Precision"], "params": {"N": 1}, "extra": ["-solver", "cvc5"]},
         ],
-        "covers": ["c05.flat.none", "c05.flat.set", "c05.flat.multiset", "c05.flat.merge", "c05.nest.none", "c05.nest.set+merge", "c05.obj.none", "c05.void.none", "c05.keyed.setkeys", "c05.precision", "c05.nulls.merge", "c05.nulls.none"],
+        "covers": ["c05.flat.none", "c05.flat.set", "c05.flat.multiset", "c05.flat.merge", "c05.nest.none", "c05.nest.set+merge", "c05.obj.none", "c05.void.none", "c05.keyed.setkeys", "c05.precision", "c05.nulls.merge", "c05.nulls.none", "c05.keys2"],
         "outside": "arrays longer than N; the CLI exit status is decided in C14; FNV collisions",
     },
     "C01": {
